@@ -1,6 +1,7 @@
 package main
 
 import (
+	"sync"
 	"fmt"
 	"go/constant"
 	"go/token"
@@ -118,6 +119,8 @@ type Unit struct {
 	reqMark    int
 	usedLemmas map[string]bool
 	ancCache   map[int]map[int]bool
+	ancMu      sync.Mutex
+	noFrameAxioms bool
 }
 
 type inputSym struct {
@@ -162,6 +165,9 @@ type Frame struct {
 	backSrc map[*ssa.BasicBlock][]*ssa.BasicBlock // block -> headers it has back edges to
 	ct      *FuncContract
 	ords    map[ssa.Instruction]map[string]int
+	atBlock *ssa.BasicBlock // program point for variable lookup in call-site assertions
+	atIdx   int
+	callOrd map[string]int
 }
 
 type loopInfo struct {
